@@ -512,10 +512,11 @@ def args_worker(_):
         pass
     for bname, K in ibacks:
         for order in ("big", "little"):
-            buffers_unchanged("Integer%s.from_bytes(%s)" % (bname, order), lambda d, K=K, order=order: (K.from_bytes(d, order), K.from_bytes(d, order)), ba(33, 1))
+            buffers_unchanged("Integer%s.from_bytes(%s)" % (bname, order), lambda d, K=K, order=order: K.from_bytes(d, order), ba(33, 1))
     from Crypto.Protocol import DH
-    buffers_unchanged("DH.import_x25519_public_key", lambda d: (DH.import_x25519_public_key(d), DH.import_x25519_public_key(d)), ba(32, 9))
-    buffers_unchanged("DH.import_x448_public_key", lambda d: (DH.import_x448_public_key(d), DH.import_x448_public_key(d)), ba(56, 9))
+    # (one call each: a buffer reversed in place would be restored by a second call)
+    buffers_unchanged("DH.import_x25519_public_key", lambda d: DH.import_x25519_public_key(d), ba(32, 9))
+    buffers_unchanged("DH.import_x448_public_key", lambda d: DH.import_x448_public_key(d), ba(56, 9))
     buffers_unchanged("Shamir.split", lambda sec: Shamir.split(2, 3, sec), ba(16, 1))
     shares = Shamir.split(2, 3, bytes(range(16)))
     buffers_unchanged("Shamir.combine", lambda a, b: Shamir.combine([(shares[0][0], a), (shares[1][0], b)]), bytearray(shares[0][1]), bytearray(shares[1][1]))
